@@ -56,3 +56,11 @@ func (ps *Pieces) VerifSnapshot() (deleted bool, count int, pieces []VerifPieceS
 func (ps *Pieces) VerifSetTime(index uint32, t mono.Time) {
 	ps.pieces[index].SetTime(t)
 }
+
+// VerifData returns the buffer of a piece (nil if it holds no data).  The
+// caller must make sure that nothing can free it concurrently.
+func (ps *Pieces) VerifData(index uint32) []byte {
+	ps.mu.RLock()
+	defer ps.mu.RUnlock()
+	return ps.pieces[index].data
+}
